@@ -306,7 +306,33 @@ func runC04L(c *fw.Ctx) {
 					outs = append(outs, "reject")
 				}
 			}
-			if _, err := s.Apply(p.Block, p.Supp); err != nil {
+			if au, err := s.Apply(p.Block, p.Supp); err == nil {
+				// outputs created AND spent inside the block are spent leaves from the start: presented again with the leaf
+				// index and proof the update reports, they must not be accepted as unspent (v2 parent and v1 supplement path)
+				for _, d := range au.SiacoinElementDiffs() {
+					if !d.Created || !d.Spent {
+						continue
+					}
+					res.Count("ephemeral-leaf:siacoin")
+					res.Eval(fmt.Sprintf("eph/%s/%d/%d/%x", mode, seed, height, d.SiacoinElement.ID[:6]), true)
+					vt := types.V2Transaction{SiacoinInputs: []types.V2SiacoinInput{{Parent: d.SiacoinElement.Copy()}}}
+					if err := s.Tip.Elements.ValidateTransactionElements(vt); err == nil {
+						res.Violate(fw.Violation{Key: "c04-accepts-spent:ephemeral-siacoin", What: fmt.Sprintf("siacoin output %v was created and spent in the block at height %d, yet the accumulator accepts it as an unspent parent with the leaf index and proof the update reports", d.SiacoinElement.ID, height),
+							Replay: map[string]any{"mode": mode, "seed": seed, "height": height, "id": fmt.Sprint(d.SiacoinElement.ID)}, Expected: "rejected", Observed: "accepted"})
+					}
+				}
+				for _, d := range au.SiafundElementDiffs() {
+					if !d.Created || !d.Spent {
+						continue
+					}
+					res.Count("ephemeral-leaf:siafund")
+					vt := types.V2Transaction{SiafundInputs: []types.V2SiafundInput{{Parent: d.SiafundElement.Copy()}}}
+					if err := s.Tip.Elements.ValidateTransactionElements(vt); err == nil {
+						res.Violate(fw.Violation{Key: "c04-accepts-spent:ephemeral-siafund", What: fmt.Sprintf("siafund output %v was created and spent in the block at height %d, yet the accumulator accepts it as an unspent parent", d.SiafundElement.ID, height),
+							Replay: map[string]any{"mode": mode, "seed": seed, "height": height, "id": fmt.Sprint(d.SiafundElement.ID)}, Expected: "rejected", Observed: "accepted"})
+					}
+				}
+			} else {
 				res.Note("generator produced a rejected block (%s seed %d height %d): %v", mode, seed, height, err)
 				res.Count("generator-rejected")
 				break
